@@ -848,13 +848,21 @@ def extract_block_as_fn(src, loc, spec, ed):
         ms = list(re.finditer(spec["arm_re"], src.text[body_lo:toks[close].pos]))
         if len(ms) <= spec.get("arm_index", 0) or (spec.get("arm_count") is not None and len(ms) != spec["arm_count"]):
             raise Undecided("lost anchor: arm pattern %r of %s (found %d)" % (spec["arm_re"], spec["path"], len(ms)))
-        pos = body_lo + ms[spec.get("arm_index", 0)].end() - 1
+        m_end = body_lo + ms[spec.get("arm_index", 0)].end()
+        pos = m_end - 1
         b_open = None
         for i in range(brace + 1, close):
             if toks[i].pos == pos and toks[i].text == "{":
                 b_open = i
         if b_open is None:
-            raise Undecided("lost anchor: arm pattern %r of %s does not end at a `{`" % (spec["arm_re"], spec["path"]))
+            # the pattern ends in front of the arm's body: a block, or an expression up to the `,`
+            nxt = [i for i in range(brace + 1, close) if toks[i].pos >= m_end]
+            if not nxt:
+                raise Undecided("lost anchor: arm pattern %r of %s has no body" % (spec["arm_re"], spec["path"]))
+            if toks[nxt[0]].text == "{":
+                b_open = nxt[0]
+            else:
+                return _extract_expr_closure(src, dict(spec, closure=spec.get("arm_index", 0), header_re=spec["arm_re"]), ed, nxt[0], close)
         b_close = src.pairs[b_open]
     else:
         # closure ordinal: k-th `|..|` closure in the function body whose body is a block
@@ -927,6 +935,14 @@ def extract_block_as_fn(src, loc, spec, ed):
         if not st or toks[st[-1][1] - 1].text == ";":
             raise Undecided("lost anchor: block of %s has no tail expression" % name)
         ed.insert(toks[st[-1][0]].pos, spec["before_tail"] + "\n", order=-3)
+    if spec.get("wrap_tail"):
+        # the block's value becomes WRAP(value): used when the block leaves early with `?` / `return Err`
+        # (so the stand-alone fn returns a Result) but its own value is the Ok payload
+        st = split_statements(src, b_open, b_close)
+        if not st or toks[st[-1][1] - 1].text == ";":
+            raise Undecided("lost anchor: block of %s has no tail expression" % name)
+        ed.insert(toks[st[-1][0]].pos, spec["wrap_tail"][0], order=-2)
+        ed.insert(toks[st[-1][1] - 1].end, spec["wrap_tail"][1], order=4)
     lspec = spec.get("loops", {})
     for kk in lspec:
         if kk >= len(depth_loops):
@@ -1033,7 +1049,7 @@ def apply_slice(src, ed, open_idx, close_idx, table, what, forbidden=()):
         kind, repl = row[1]
         if "\\" in repl:
             repl = mobj.expand(repl)   # identifiers captured from the real statement are passed through
-        assert kind in ("abstract", "abstract_break")
+        assert kind in ("abstract", "abstract_break", "abstract_try")
         for k in range(s, e):
             t = toks[k]
             if kind == "abstract_break" and t.kind == "ident" and t.text == "break" and "break" in repl:
@@ -1041,7 +1057,10 @@ def apply_slice(src, ed, open_idx, close_idx, table, what, forbidden=()):
             if t.kind == "ident" and t.text in ("break", "continue", "return"):
                 raise Undecided("slice %s: abstract statement `%s...` contains `%s`" % (what, text[:40], t.text))
             if t.kind == "punct" and t.text == "?":
-                raise Undecided("slice %s: abstract statement `%s...` contains `?`" % (what, text[:40]))
+                # "abstract_try": ONE `?`, the last token in front of the `;`, kept by the replacement
+                # (the statement's only early exit stays where it is)
+                if not (kind == "abstract_try" and k == e - 2 and toks[e - 1].text == ";" and repl.rstrip().endswith("?;")):
+                    raise Undecided("slice %s: abstract statement `%s...` contains `?`" % (what, text[:40]))
             if t.kind == "ident" and t.text in forbidden:
                 raise Undecided("slice %s: abstract statement `%s...` mentions `%s`" % (what, text[:40], t.text))
         ed.replace(toks[s].pos, toks[e - 1].end, repl, rule="R6 %s: abstracted `%s...`" % (what, text[:50]))
